@@ -162,6 +162,7 @@ pub const MAX_CAP_ARG: usize = 1 << 16;
 impl World {
     pub fn new(cfg: &Config, target: Option<&'static str>) -> World {
         tracked::reset();
+        crate::hashers::reset_clones();
         let e0 = {
             let k = TKey::new(0, 0);
             let v = TVal::new(0, 0);
